@@ -20,6 +20,7 @@ Audio recording input and playing output module
 import threading
 import struct
 import array
+import sys
 
 # Audiolazy internal imports
 from ._internals import deprecate
@@ -112,20 +113,31 @@ def chunks(seq, size=None, dfmt="f", byte_order=None, padval=0.):
   """
   if size is None:
     size = chunks.size
-  chunk = array.array(dfmt, xrange(size))
+  chunk = array.array(dfmt, [0]) * size
   idx = 0
+
+  # The array module always uses the native byte order
+  native = "<" if sys.byteorder == "little" else ">"
+  swap = {"!": ">", "<": "<", ">": ">"}.get(byte_order, native) != native
+
+  def to_bytes():
+    if swap:
+      swapped = array.array(dfmt, chunk)
+      swapped.byteswap()
+      return swapped.tobytes()
+    return chunk.tobytes()
 
   for el in seq:
     chunk[idx] = el
     idx += 1
     if idx == size:
-      yield chunk.tostring()
+      yield to_bytes()
       idx = 0
 
   if idx != 0:
     for idx in xrange(idx, size):
       chunk[idx] = padval
-    yield chunk.tostring()
+    yield to_bytes()
 
 
 class RecStream(Stream):
